@@ -86,6 +86,12 @@ def battery(nodes, level=2, exporters=True, rng=None, names=None):
         out[p + "rightsibling"] = g(m, util.rightsibling, n)
         for nm, it in ITERS:
             out[p + "it." + nm] = g(m, lambda it=it, n=n: list(it(n)))
+        out[p + "common1"] = g(m, util.commonancestors, n)
+        # resolver lookups by (possibly duplicated) name through the shared class-level state of Resolver
+        rz = Resolver("name")
+        for j in range(min(k, 4)):
+            out[p + "get.%d" % j] = g(m, rz.get, n, str(getattr(nodes[j], "name", "")))
+        out[p + "glob.star"] = g(m, rz.glob, n, "*")
         if level >= 1:
             for nm, it in ITERS:
                 for ml in (0, 1, 2, 3):
